@@ -7,6 +7,7 @@ import (
 	"github.com/samsarahq/thunder/internal"
 	"github.com/samsarahq/thunder/reactive"
 	"github.com/samsarahq/thunder/sqlgen"
+	"github.com/samsarahq/thunder/verifhook"
 )
 
 // dbResource tracks changes to a specific table matching a filter
@@ -54,6 +55,7 @@ func (t *dbTracker) add(r *dbResource) {
 	defer t.mu.Unlock()
 
 	t.resources[r] = struct{}{}
+	verifhook.At("livesql.tracker.add", t, r)
 }
 
 func (t *dbTracker) remove(r *dbResource) {
@@ -61,12 +63,14 @@ func (t *dbTracker) remove(r *dbResource) {
 	defer t.mu.Unlock()
 
 	delete(t.resources, r)
+	verifhook.At("livesql.tracker.remove", t, r)
 }
 
 // processBinlog processes a set of updates from the MySQL binlog
 func (t *dbTracker) processBinlog(update *update) {
 	t.mu.Lock()
 	defer t.mu.Unlock()
+	verifhook.At("livesql.tracker.process", t, update)
 
 	for q := range t.resources {
 		if q.shouldInvalidate(update) {
@@ -92,6 +96,7 @@ func (t *dbTracker) registerDependency(ctx context.Context, schema *sqlgen.Schem
 	})
 
 	reactive.AddDependency(ctx, r.resource, QueryDependency{Table: table, Filter: filter})
+	verifhook.At("livesql.register", t, r, table, filter)
 
 	t.add(r)
 	return nil
